@@ -67,7 +67,17 @@ def run_playback_test(runner, ws, prop, h, test_src, test_name, profiles=("dev",
     rdir = os.path.join(runner.CACHE, "replay", prop)
     os.makedirs(rdir, exist_ok=True)
     copy = os.path.join(rdir, os.path.basename(h["file"]))
-    shutil.copyfile(h["file"], copy)
+    # native copies of the harness sources: include!() paths point at the copies, and expressions
+    # marked `/*@model-only*/ <expr> /*@replay: <expr> */` are swapped for their native form
+    hdir = os.path.dirname(h["file"]) if not h["file"].startswith(runner.CACHE) else runner.HARNESS_DIR
+    for name in os.listdir(runner.HARNESS_DIR):
+        if name.endswith(".rs"):
+            text = open(os.path.join(runner.HARNESS_DIR, name), encoding="utf-8").read()
+            text = text.replace(runner.HARNESS_DIR + "/", rdir + "/")
+            text = re.sub(r"/\*@model-only\*/.*?/\*@replay:\s*(.*?)\s*\*/", r"\1", text, flags=re.S)
+            open(os.path.join(rdir, name), "w", encoding="utf-8").write(text)
+    if not os.path.exists(copy) or h["file"].startswith(runner.CACHE):
+        shutil.copyfile(h["file"], copy)
     with open(copy, "a", encoding="utf-8") as f:
         f.write("\n// ---- concrete playback (appended by tools/replay.py) ----\n" + test_src + "\n")
     _point_mod_at(ws, h["src"], copy, h["mod"])
@@ -128,7 +138,9 @@ def replay_failure(runner, ws, prop, h, info):
     rec["playback_test_name"] = test_name
     rec["concrete_values"] = vals
     decoded = None
-    if kind == "playback":
+    if kind == "none":
+        reproduced, note = False, "this harness has no native replay (vacuity / trap twin)"
+    elif kind == "playback":
         outcomes = run_playback_test(runner, ws, prop, h, test_src, test_name)
         rec["native"] = outcomes
         reproduced = outcomes.get("dev") == "failed" or outcomes.get("release") == "failed"
